@@ -59,7 +59,7 @@ pub fn plan(prop: &str) -> Option<Plan> {
         ),
         "C02" => p(
             "C02",
-            vec![("faults", 3, false), ("crashy", 3, false), ("restart", 2, false), ("overlap", 2, false), ("plain", 1, false)],
+            vec![("faults", 3, false), ("crashy", 3, false), ("restart", 2, false), ("overlap", 2, false), ("plain", 1, false), ("slowpath", 1, false)],
             vec![("reads", 3, false)],
             vec!["c02.fail-of-held-htlc"],
             "a run is non-trivial if a held trampoline HTLC was failed back in it",
@@ -80,7 +80,7 @@ pub fn plan(prop: &str) -> Option<Plan> {
         ),
         "C05" => p(
             "C05",
-            vec![("crashy", 3, false), ("overlap", 4, false), ("restart", 2, false), ("faults", 2, false)],
+            vec![("crashy", 3, false), ("overlap", 4, false), ("restart", 2, false), ("faults", 2, false), ("slowpath", 1, false)],
             vec![("reads", 1, false)],
             vec!["pay.issued"],
             "a run is non-trivial if a pay request was issued in it",
@@ -103,7 +103,7 @@ pub fn plan(prop: &str) -> Option<Plan> {
             level: "fault_enumeration",
             ..p(
                 "C08",
-                vec![("crashy", 3, false), ("overlap", 3, false), ("faults", 3, false), ("restart", 1, false)],
+                vec![("crashy", 3, false), ("overlap", 3, false), ("faults", 3, false), ("restart", 1, false), ("slowpath", 1, false)],
                 vec![],
                 vec!["c08.invariant-evaluated-with-live-part"],
                 "a run is non-trivial if the record/part invariant was evaluated while a part was pending or complete",
